@@ -1,6 +1,6 @@
 use digest::{const_oid::AssociatedOid, Digest};
 use md5::Md5;
-use num_bigint::ModInverse;
+use num_bigint::{BigUint, ModInverse};
 use rand::{CryptoRng, Rng};
 use ripemd::Ripemd160;
 use rsa::{
@@ -19,7 +19,7 @@ use zeroize::{ZeroizeOnDrop, Zeroizing};
 
 use crate::{
     crypto::{hash::HashAlgorithm, Decryptor, Signer},
-    errors::{format_err, unsupported_err, Error, Result},
+    errors::{ensure, format_err, unsupported_err, Error, Result},
     ser::Serialize,
     types::{Mpi, PkeskBytes, RsaPublicParams, SignatureBytes},
 };
@@ -64,11 +64,20 @@ impl SecretKey {
         q: Mpi,
         _u: Mpi,
     ) -> Result<Self> {
+        let p: BigUint = p.into();
+        let q: BigUint = q.into();
+
+        // `u` (the inverse of p mod q) is recomputed when the key is serialized, so it has to exist.
+        ensure!(
+            p.clone().mod_inverse(&q).is_some(),
+            "invalid RSA secret key: p has no inverse mod q"
+        );
+
         let secret_key = RsaPrivateKey::from_components(
             pub_params.key.n().clone(),
             pub_params.key.e().clone(),
             d.into(),
-            vec![p.into(), q.into()],
+            vec![p, q],
         )?;
         Ok(Self(secret_key))
     }
